@@ -2,7 +2,7 @@ SPECIFICATION Spec
 CONSTANTS
   Fam = "merge"
   MaxLen = 3
-  Sel <- MergeCellsT
+  Sel <- MergeCellsQ
 INVARIANT Lemmas
 INVARIANT InModel
 CHECK_DEADLOCK FALSE
